@@ -9,6 +9,7 @@ wall-time figures of the evidence file.
 import ctypes
 import hashlib
 import os
+import resource
 import shutil
 import struct
 import subprocess
@@ -356,7 +357,7 @@ def crash_image(pre, evs, dev, upto=None, model="kill", keep=None, torn=None):
 # ----------------------------------------------------------------------------- running one process
 class Result:
     __slots__ = ("argv", "status", "signal", "out", "err", "events", "timeout", "san", "crashed",
-                 "budget_hit", "sim_us")
+                 "budget_hit", "sim_us", "san_text")
 
     def ok(self):
         return self.status == 0 and not self.san
@@ -366,7 +367,7 @@ class Result:
 
 
 SAN_MARKERS = (b"ERROR: AddressSanitizer", b"runtime error:", b"ERROR: LeakSanitizer",
-               b"AddressSanitizer:", b"WARNING: ThreadSanitizer", b"AddressSanitizer failed")
+               b"WARNING: ThreadSanitizer")
 
 
 def classify_sanitizer(err):
@@ -398,7 +399,22 @@ def classify_sanitizer(err):
     return (kind, frame)
 
 
-def run_sim(argv, plan, workdir, tag="p", env=None, stdin=None, cpu_s=60, keep_log=False):
+FSIZE_LIMIT = 768 << 20
+OUT_CAP = 512 << 10
+
+
+def _read_capped(path):
+    """first and last OUT_CAP bytes of a captured stream"""
+    sz = os.path.getsize(path)
+    with open(path, "rb") as f:
+        if sz <= 2 * OUT_CAP:
+            return f.read()
+        head = f.read(OUT_CAP)
+        f.seek(sz - OUT_CAP)
+        return head + b"\n...[%d bytes omitted]...\n" % (sz - 2 * OUT_CAP) + f.read()
+
+
+def run_sim(argv, plan, workdir, tag="p", env=None, stdin=None, cpu_s=10, keep_log=False):
     """Run one simulated process.  Returns Result with parsed events."""
     plan_path = os.path.join(workdir, tag + ".plan")
     plan.log = os.path.join(workdir, tag + ".evlog")
@@ -418,19 +434,40 @@ def run_sim(argv, plan, workdir, tag="p", env=None, stdin=None, cpu_s=60, keep_l
     r = Result()
     r.argv = argv
     r.timeout = False
-    try:
-        p = subprocess.run(argv, stdin=subprocess.DEVNULL if stdin is None else None, input=stdin,
-                           stdout=subprocess.PIPE, stderr=subprocess.PIPE, env=e, cwd=workdir,
-                           timeout=cpu_s)
-        rc, out, err = p.returncode, p.stdout, p.stderr
-    except subprocess.TimeoutExpired as t:
-        rc, out, err = -9, t.stdout or b"", t.stderr or b""
-        r.timeout = True
+    def _limits():
+        # CPU time, not wall time, bounds a simulated process: the verdict "did not terminate" must not
+        # depend on how loaded the machine is.  (The device-event budget bounds I/O loops exactly.)
+        resource.setrlimit(resource.RLIMIT_CPU, (cpu_s, cpu_s + 2))
+        resource.setrlimit(resource.RLIMIT_CORE, (0, 0))
+        # `debugfs cat` of a file whose (damaged) size is a terabyte would otherwise fill memory
+        resource.setrlimit(resource.RLIMIT_FSIZE, (FSIZE_LIMIT, FSIZE_LIMIT))
+    outp = os.path.join(workdir, tag + ".stdout")
+    errp = os.path.join(workdir, tag + ".stderr")
+    with open(outp, "wb") as fo, open(errp, "wb") as fe:
+        try:
+            p = subprocess.run(argv, stdin=subprocess.DEVNULL if stdin is None else None, input=stdin,
+                               stdout=fo, stderr=fe, env=e, cwd=workdir,
+                               timeout=cpu_s * 6 + 30, preexec_fn=_limits)
+            rc = p.returncode
+            if rc in (-24, -9):     # SIGXCPU / SIGKILL from the CPU limit
+                r.timeout = True
+        except subprocess.TimeoutExpired:
+            rc = -9
+            r.timeout = True
+    out = _read_capped(outp)
+    err = _read_capped(errp)
+    os.unlink(outp)
+    os.unlink(errp)
     r.status = rc if rc >= 0 else None
     r.signal = -rc if rc < 0 else None
     r.out, r.err = out, err
     r.events = parse_log(plan.log)
     r.san = classify_sanitizer(err)
+    r.san_text = ""
+    if r.san:
+        t = err.decode("latin1")
+        i = min([t.find(m.decode()) for m in SAN_MARKERS if m.decode() in t] or [0])
+        r.san_text = "\n".join(t[max(0, i - 20):].splitlines()[:26])
     r.crashed = any(ev.kind == "K" for ev in r.events)
     r.budget_hit = any(ev.kind == "B" for ev in r.events)
     r.sim_us = sim_stats(r.events)[0]
